@@ -33,6 +33,11 @@ def measure(rec, cls, detail, A):
     k = min(m, n)
     if leading_deficient(A):
         cls = "rank-deficient-leading-columns"
+        # the recorded finding concerns DEPENDENT non-zero columns; columns that are exactly zero (in any position, with
+        # either sign of zero) are handled correctly by the unchanged tree and are judged strictly
+        nzc = [j for j in range(n) if np.any(A[:, j] != 0)]
+        if len(nzc) < n and (not nzc or not leading_deficient(A[:, nzc])):
+            cls = "exact-zero-columns"
     elif cls.startswith("rank-deficient"):
         cls = "wide-full-leading-block" if m < n else "full-column-rank"
     t = rec.new("qr_qua", cls, detail)
@@ -118,6 +123,15 @@ def _structure_job(args):
         m, n = int(rng.integers(1, 7)), int(rng.integers(1, 7))
         G = rng.standard_normal((m, n, 4))
         measure(rec, ("wide-" if m < n else "") + "gaussian", {"shape": [m, n], "A": G.tolist(), "structure": "gaussian"}, G)
+    # exactly zero columns whose zeros carry SIGN BITS (masking by "*= 0.0", negation): any position, entries to the right
+    for _ in range(160 if thorough else 48):
+        m, n = int(rng.integers(2, 7)), int(rng.integers(2, 7))
+        Zs = rng.standard_normal((m, n, 4))
+        j = int(rng.integers(0, n))
+        Zs[:, j] *= (0.0, -0.0)[int(rng.integers(0, 2))]
+        if rng.random() < 0.3:
+            Zs = -Zs
+        measure(rec, "signed-zero-column", {"shape": [m, n], "zero_column": j, "structure": "column masked by multiplication with a signed zero"}, Zs)
     # block structures with exactly zero blocks (full rank): block diagonal, block upper / lower triangular
     for (m, n) in ((4, 4), (6, 4), (4, 6), (7, 7)):
         G = rng.standard_normal((m, n, 4))
